@@ -1,5 +1,5 @@
 import Momtrop.Props.C05
-import Momtrop.Props.C04
+import Momtrop.Props.C04R
 /-!
 # C05 in exact arithmetic: an accepted table has strictly positive `J` everywhere
 -/
@@ -65,5 +65,13 @@ theorem table_j_pos (Γ : ℝ → ℝ) (G : TGraph ℝ) (D : Nat) (T : Table ℝ
     exact (this (not_lt.mp hcon) hs0) hsf
 where
   C03_genDod_empty : (preEntry G D 0).2.2 = (one : ℝ) := by simp [preEntry, Mask.isEmpty]
+
+/-- **Sector probabilities of an accepted table sum to one**: if every subset other than the full graph has `ω > 0`
+(what `build_sampler` checks), the probabilities `Π_k J(g_k)/J(g_{k-1})/ω(g_k)` of all `E!` complete removal orders add up to 1,
+each being `Π_k 1/ω(g_k) / J(G)`. -/
+theorem sector_probs_sum_one (omega : Mask → ℝ) (n : Nat)
+    (hpos : ∀ h, h < 2 ^ n → h ≠ Mask.full n → 0 < omega h) (g : Mask) (hg : g < 2 ^ n) :
+    ((C04.orderingsAux (card n g) (Mask.edges n g)).map (C04.orderProb omega n g)).sum = 1 :=
+  C04.orderProb_sum_one omega n (fun h hh => (J_pos omega n hpos _ h hh rfl).ne') g hg
 
 end Momtrop.C05
